@@ -9,7 +9,7 @@ import sched as schedmod
 PROP_FILES = ["State/Properties_C14.v"]
 MANIFEST = dict(
     technique="Coq proof by invariants preserved by every atomic step of n processes over a file-system model (names/inodes/flock), for arbitrary schedules (list pid, lock time-outs as a scheduling outcome of try-lock-with-deadline); tied to /repo by driving real processes through explicit schedules with the verif-hooks barriers (tools/sched.py) and comparing final files, exit codes, messages, hook traces and lock waits with the model",
-    text="Theorems C14_no_torn_read, C14_final_is_some_writers, C14_written_is_complete, C14_never_blocked, C14_wait_bounded, C14_finishes_under_any_schedule, C14_snapshot_not_lost, C14_update_lock_exclusive, C14_lost_update_characterised hold for every number of processes, every command mix, every poll budget and every schedule (unbounded; D14, D15, D27 repaired, no known class; C14_unlocked_update_lost keeps the D15 witness for writers without the update lock). Tie: systematic + sampled (quick) or all (thorough) interleavings of the update-lock / load / lock / rename / unlock points of two real processes (sampled: three) for each command pair sharing a file (snapshot+snapshot, check+check on the cache, update-baseline+check --baseline, update-baseline x2 incl. temp-file points, snapshot+stats history) and each initial state, lock time-outs forced with SGV_LOCK_TIMEOUT_MS=200.",
+    text="Theorems C14_no_torn_read, C14_final_is_some_writers, C14_written_is_complete, C14_never_blocked, C14_wait_bounded, C14_finishes_under_any_schedule, C14_snapshot_not_lost, C14_update_lock_exclusive, C14_update_lock_name_stable (the lock is taken on the inode <file>.lock denoted at open time; that name is never unbound or rebound), C14_lost_update_characterised hold for every number of processes, every command mix, every poll budget and every schedule (unbounded; D14, D15, D27 repaired, no known class; C14_unlocked_update_lost keeps the D15 witness for writers without the update lock). Tie: systematic + sampled (quick) or all (thorough) interleavings of the update-lock / load / lock / rename / unlock points of two real processes (sampled: three) for each command pair sharing a file (snapshot+snapshot, check+check on the cache, update-baseline+check --baseline, update-baseline x2 incl. temp-file points, snapshot+stats history) and each initial state, a three-snapshot schedule family around upd:before_lock / upd:after_lock / snap:after_load, the inode number of <file>.lock sampled after every event (must never change or vanish), model-free continuation of a schedule after a divergence so that the property oracle still judges its outcome, lock time-outs forced with SGV_LOCK_TIMEOUT_MS=200.",
     note="Trusted: Coq kernel, extraction, kernel flock/rename semantics (State/Fs.v), the barrier hooks (a process is paused only AT a hook point); wall-clock bounds (no lock wait beyond the time-out) are measured on each run, not proved; C14_wait_bounded is the model-level statement (bounded number of own steps, never blocked).",
     ref="5 (C14), 9")
 
@@ -20,6 +20,8 @@ PTS_FULL = ["load:after_open", "load:after_lock", "aw:after_open_target", "aw:af
 # two snapshots contend only for the update lock: inside it nobody else touches the target's locks
 PTS_SNAP = ["upd:before_lock", "load:after_lock", "aw:after_lock", "aw:after_rename"]
 PTS_SNAP_READER = ["upd:before_lock"] + PTS_FULL
+# three snapshots paused around the update lock: lock file opened / lock held / history loaded
+PTS_UPD = ["upd:before_lock", "upd:after_lock", "snap:after_load"]
 # two first-time writers paused inside the private part of the save as well (temp file creation / content)
 PTS_TEMP = ["load:after_open", "load:after_lock", "aw:after_create_temp", "aw:after_flush", "aw:after_open_target", "aw:after_lock", "aw:after_rename"]
 
@@ -54,6 +56,7 @@ def scenarios():
              [(["check", "sc", "--no-sloc-cache", "--update-baseline", "all"], NOW0 - 100)], PTS_TEMP),
         Scen("snapshot+stats-history", "history", proj, {1: snap(1), 2: {"args": ["stats", "history"], "now": NOW0 + 2, "model": "hist"}}, init_hist, PTS_SNAP_READER),
         Scen("snapshot x3", "history", proj, {1: snap(1), 2: snap(2), 3: snap(3)}, init_hist, PTS_SNAP),
+        Scen("snapshot x3 (update lock)", "history", proj, {1: snap(1), 2: snap(2), 3: snap(3)}, init_hist, PTS_UPD),
     ]
     return S
 
@@ -153,7 +156,7 @@ def mvalue(s):
     return None
 
 
-def run_real(cli, setup, init, m):
+def run_real(cli, setup, init, m, sched=None):
     """Drive real processes through the model's plan; return observations."""
     sc = setup.sc
     with copy_of(setup.templates[init]) as sb:
@@ -164,12 +167,28 @@ def run_real(cli, setup, init, m):
             env = dict(sb.env)
             env.update(base_env(pr["now"], {"SGV_TRACE": tr, "SGV_LOCK_TIMEOUT_MS": str(LOCK_MS)}))
             ctl.add(pid, [cli, "--color", "never"] + pr["args"], env, sb.proj)
-        div = ctl.run_plan(m["plan"], sc.pts)
-        ctl.finish()
-        traces = read_trace(tr)
         target = os.path.join(sb.proj, KIND_FILE[sc.kind])
+        lockfile = target + ".lock"
+        inodes = []
+
+        def sample():
+            try:
+                inodes.append(os.stat(lockfile).st_ino)
+            except FileNotFoundError:
+                inodes.append(None)
+        sample()
+        div = ctl.run_plan(m["plan"], sc.pts, after_event=sample)
+        if div is not None and sched is not None:
+            # the real processes left the model's plan: go on model-free with the rest of the schedule,
+            # so that the property oracle still sees how this schedule ends
+            k = div["index"]
+            rest = list(sched[k + 1:] if div["done"] else sched[k:]) if k < len(sched) else []
+            ctl.run_raw(rest, after_event=sample)
+        ctl.finish()
+        sample()
+        traces = read_trace(tr)
         st, doc, _ = read_state(target)
-        obs = {"divergence": div, "state": st, "entries": entries_of(sc.kind, doc) if doc else None,
+        obs = {"divergence": div, "lock_inodes": inodes, "state": st, "entries": entries_of(sc.kind, doc) if doc else None,
                "temps": temp_files(os.path.dirname(target), os.path.basename(target)), "procs": {}}
         for pid, pr in ctl.procs.items():
             ospid = pr.p.pid if pr.p else None
@@ -197,6 +216,10 @@ def compare(setup, init, m, o):
     """model vs implementation; returns list of mismatch descriptions"""
     sc = setup.sc
     mm = []
+    seen = [x for x in o["lock_inodes"] if x is not None]
+    if len(set(seen)) > 1 or (seen and any(x is None for x in o["lock_inodes"][o["lock_inodes"].index(seen[0]):])):
+        mm.append({"relation": "the update-lock name <file>.lock denotes one and the same inode from its creation on (C14_update_lock_name_stable: never unbound or rebound)",
+                   "impl": o["lock_inodes"]})
     if o["divergence"]:
         mm.append({"relation": "real processes follow the model's plan event by event", "impl": o["divergence"]})
         return mm
@@ -294,6 +317,23 @@ def witness_schedules(counts):
     return out
 
 
+def update_lock_family(tier):
+    """Three snapshot processes x, y, z around the update lock (segments: -> upd:before_lock ->
+    upd:after_lock -> snap:after_load -> exit): x is paused inside its load-modify-save section
+    after i segments, y after j (lock file opened, or trying to lock), x runs to its end, y goes
+    on for k more segments, z runs for m segments, then y and z finish. polls = 0: a lock attempt
+    that finds the lock held is the time-out outcome, so the plan has no no-op events."""
+    orders = [(1, 2, 3), (3, 1, 2)] if tier == "quick" else [(1, 2, 3), (3, 1, 2), (2, 3, 1), (2, 1, 3)]
+    out = []
+    for (x, y, z) in orders:
+        for i in (2, 3):
+            for j in (1, 2):
+                for k in (1, 2):
+                    for m in (1, 2, 3, 4):
+                        out.append([x] * i + [y] * j + [x] * (4 - i) + [y] * k + [z] * m + [y] * 4 + [z] * 4)
+    return out
+
+
 def run(ctx):
     cli, drv = prepare_state(ctx)
     proofs_ok = proofs_step(ctx, PROP_FILES)
@@ -306,6 +346,11 @@ def run(ctx):
             su = Setup(cli, sc)
             setups.append(su)
             three = len(sc.procs) == 3
+            if sc.pts is PTS_UPD:
+                for init in ("absent", "valid"):
+                    for w in update_lock_family(ctx.tier):
+                        jobs.append((su, init, 0, w, "update-lock-family"))
+                continue
             for init in ("absent", "valid"):
                 # segments of each process when it runs alone
                 solo = parse_model(model(drv, [su.model_line(init, 1, [])])[0])
@@ -344,7 +389,7 @@ def run(ctx):
 
         def one(i):
             su, init, polls, s, tag = jobs[i]
-            return run_real(cli, su, init, ms[i])
+            return run_real(cli, su, init, ms[i], s)
 
         t0 = time.time()
         with cf.ThreadPoolExecutor(max_workers=8) as ex:
@@ -371,7 +416,7 @@ def run(ctx):
             mm = compare(su, init, m, o)
             if mm and o["divergence"] and "waited" not in str(mm):
                 # one retry for scheduling noise (machine under load)
-                o = run_real(cli, su, init, m)
+                o = run_real(cli, su, init, m, s)
                 mm = compare(su, init, m, o)
             for x in mm:
                 x["case"] = case
@@ -529,7 +574,7 @@ def replay(ctx, path):
     su = Setup(cli, sc)
     try:
         m = parse_model(model(drv, [su.model_line(c["init"], c["polls"], c["schedule"])])[0])
-        o = run_real(cli, su, c["init"], m)
+        o = run_real(cli, su, c["init"], m, c["schedule"])
         print("plan :", " ".join("%d:%s:%s" % e for e in m["plan"]))
         print("model: final", m["target"], "vers", m["vers"], {p: (d["phase"], d["ack"], d["saved"]) for p, d in m["procs"].items()})
         print("impl : final", o["state"], o["entries"], {p: (d["rc"], d["out"][:40], d["err"][-120:]) for p, d in o["procs"].items()})
